@@ -167,6 +167,12 @@ class Ctx:
             write_if_changed(os.path.join(LEAN, 'PytezosModel', 'Audit', f'{prop}.lean'), audit_src)
             targets = [f'Driver.{prop}', f'PytezosModel.Props.{prop}', *extra_targets]
             rc_d, log_d = _sh(['lake', 'build', targets[0]], cwd=LEAN)
+            self.exe = None
+            exe_name = f'drv_{prop.lower()}'
+            if rc_d == 0 and f'name = "{exe_name}"' in open(os.path.join(LEAN, 'lakefile.toml')).read():
+                rc_e, _ = _sh(['lake', 'build', exe_name], cwd=LEAN)
+                if rc_e == 0:
+                    self.exe = os.path.join(LEAN, '.lake', 'build', 'bin', exe_name)
             rc_p, log_p = _sh(['lake', 'build', *targets[1:]], cwd=LEAN)
         self.lean_ok = rc_d == 0
         if rc_d != 0:
@@ -205,8 +211,11 @@ class Ctx:
         for ln in lines:
             assert '\n' not in ln
         rc, out = 1, ''
-        p = subprocess.run(['lake', 'env', 'lean', '--run', f'Driver/{driver or self.prop}.lean'], cwd=LEAN,
-                           input='\n'.join(lines) + '\n', capture_output=True, text=True, timeout=3000)
+        if getattr(self, 'exe', None) and (driver or self.prop) == self.prop:
+            cmd = [self.exe]
+        else:
+            cmd = ['lake', 'env', 'lean', '--run', f'Driver/{driver or self.prop}.lean']
+        p = subprocess.run(cmd, cwd=LEAN, input='\n'.join(lines) + '\n', capture_output=True, text=True, timeout=3000)
         outs = p.stdout.split('\n')
         if outs and outs[-1] == '':
             outs.pop()
